@@ -74,7 +74,17 @@ func (interp *Interpreter) compileSrc(src, name string, inc bool) (*Program, err
 //
 // WARNING: The node must have been parsed using interp.FileSet(). Results are
 // unpredictable otherwise.
-func (interp *Interpreter) CompileAST(n ast.Node) (*Program, error) {
+func (interp *Interpreter) CompileAST(n ast.Node) (prog *Program, err error) {
+	// A panic raised while compiling is returned as an error, as in Execute,
+	// instead of crashing the caller.
+	defer func() {
+		if r := recover(); r != nil {
+			var pc [64]uintptr // 64 frames should be enough.
+			n := runtime.Callers(1, pc[:])
+			prog, err = nil, Panic{Value: r, Callers: pc[:n], Stack: debug.Stack()}
+		}
+	}()
+
 	// Convert AST.
 	pkgName, root, err := interp.ast(n)
 	if err != nil || root == nil {
